@@ -120,6 +120,13 @@ class Canon:
                 if name in ("eq", "ne") and "PartialEq" in path and len(args) == 2:
                     e = mk_bin("Eq", args[0], args[1])
                     return e if name == "eq" else ("un", "Not", e)
+                if depth < 3 and "::" in path:
+                    # a helper introduced by an edit (not in the reference list), straight-line: look through it
+                    cands = [g for g in self.prog.by_path.get(path, []) if g.body and g.kind in ("fn", "assoc_fn")]
+                    if len(cands) == 1 and self.prog.is_new(cands[0]) and len(args) == cands[0].body["argc"]:
+                        body = self.tree(Origins(cands[0]).return_origin(), depth + 1)
+                        if not any(x[0] in ("phi", "loop", "unknown") for x in walk(body)):
+                            return subst(body, lambda x: args[x[1] - 1] if x[0] == "param" and 1 <= x[1] <= len(args) else None)
                 if self.lam_args and any(is_closure(a) or is_fnitem(a) for a in args):
                     new = tuple((self.lam(a, depth) or a) if (is_closure(a) or is_fnitem(a)) else a for a in args)
                     return n[:3] + (new,) + n[4:]
